@@ -163,7 +163,7 @@ def tlc_many(jobs, maxproc=8):
 def coverage_actions(out):
     """Parse `-coverage 1` output: {action name: (distinct, total)} for the last report."""
     acts = {}
-    for m in re.finditer(r"<(\w+) line \d+, col \d+ to line \d+, col \d+ of module \w+>: (\d+):(\d+)", out):
+    for m in re.finditer(r"<(\w+) line \d+, col \d+ to line \d+, col \d+ of module \w+(?: \([\d ]+\))?>: (\d+):(\d+)", out):
         acts[m.group(1)] = (int(m.group(2)), int(m.group(3)))
     return acts
 
